@@ -14,4 +14,8 @@ def run(ctx):
         return obs
     obs += cp.host_rules(ctx, 'C17')
     obs += cp.rules_rule(ctx, 'C17')
+    obs += cp.host_extra_rules(ctx, 'C17')
+    obs += cp.warning_sink_rule(ctx, 'C17')
+    # the low-priority stream is written through the serialising appenders only (shared with C08.sep)
+    obs += [o for o in cp.sep_rule(ctx, 'C17') if '/owners/' in o['key']]
     return obs
